@@ -870,6 +870,11 @@ def mutate(rng, b, per_kind=2):
         out.append(("break", b[:i.start] + b"\xff" + b[i.start:]))
     for i in pick(items):
         out.append(("subst", b[:i.start] + bytes([rng.choice([0xf6, 0xf7, 0xff, 0x00, 0x80, 0xa0, 0x40, 0x60, 0xf8, 0x1c])]) + b[i.end:]))
+    # replace an integer item by a boundary value at the 8-byte width (the typed position stays an integer)
+    for i in pick([i for i in items if i.major in (0, 1) and not i.indef]):
+        for v in (2**63 - 1, 2**63, 2**64 - 1, 2**32, 2**31):
+            out.append(("intsubst", b[:i.start] + gen.head(i.major, v, 8) + b[i.hend:]))
+            out.append(("intsubst", b[:i.start] + gen.head(1 - i.major, v, 8) + b[i.hend:]))
     # flip one random bit / append a byte
     p = rng.randrange(len(b))
     out.append(("bitflip", b[:p] + bytes([b[p] ^ (1 << rng.randrange(8))]) + b[p + 1:]))
